@@ -755,10 +755,17 @@ pub fn check_strat_t<T: SEl>(c: &StratCase) -> CheckResult {
                     let p = &grid.projections()[ax];
                     ensure!(p.len() == e.len() - 1 && (0..p.len()).all(|i| p.index(i).start == e[i] && p.index(i).end == e[i + 1]), "wrong-value", "GridBuilder axis {} differs from the bins {:?}::from_array builds for that column", ax, c.strat);
                 }
-                let h = m.histogram(grid);
-                let total: usize = h.counts().iter().sum();
-                ensure!(total == n, "wrong-value", "a histogram of the data over the strategy-built grid counts {} of {} observations", total, n);
-                info = info.class("via-GridBuilder+histogram");
+                // the counts array has one cell per bin tuple: only allocate it when that is sane
+                // (a harness resource bound, counted as a class; every axis was checked above)
+                let cells: f64 = grid.shape().iter().map(|&b| b as f64).product();
+                if cells <= 4.0e6 {
+                    let h = m.histogram(grid);
+                    let total: usize = h.counts().iter().sum();
+                    ensure!(total == n, "wrong-value", "a histogram of the data over the strategy-built grid counts {} of {} observations", total, n);
+                    info = info.class("via-GridBuilder+histogram");
+                } else {
+                    info = info.class("via-GridBuilder(histogram skipped: more than 4e6 cells)");
+                }
             }
         }
     }
@@ -825,6 +832,12 @@ fn strat_column(ty: STy, n: usize) -> BoxedStrategy<Vec<i128>> {
                 3 => (base.clone(), proptest::collection::vec(0i128..100_000, n)).prop_map(move |(b, v)| v.into_iter().map(|x| (b + x).max(lo).min(hi)).collect::<Vec<_>>()),
                 2 => (base.clone(), proptest::collection::vec(prop_oneof![8 => Just(7i128), 1 => 0i128..1000], n)).prop_map(move |(b, v)| v.into_iter().map(|x| (b + x).max(lo).min(hi)).collect::<Vec<_>>()),
                 1 => proptest::collection::vec(lo..=hi, n),
+                // right below the type's maximum: range <= 1500 and max <= MAX - 1500, so that the
+                // maximum plus one bin width (<= range) is representable, as the property requires
+                2 => proptest::collection::vec(0i128..1500, n).prop_map(move |v| {
+                    let tmax = hi * 4 + 3;
+                    v.into_iter().map(|x| tmax - 3000 + x).collect::<Vec<_>>()
+                }),
                 1 => (base).prop_map(move |b| vec![b.max(lo).min(hi); n]),
             ]
             .boxed()
